@@ -306,6 +306,10 @@ class Gen:
                 an = {"form": "str", "s": "prov:" + r.choice(PROV_EXTRA)}
                 if self.p.get("prov_unknown_attrs", True) and r.random() < 0.06:
                     an = {"form": "str", "s": "prov:" + r.choice(PROV_UNKNOWN)}
+                elif self.p.get("prov_alias_attrs", 0) and r.random() < self.p["prov_alias_attrs"]:
+                    # the same attribute named through a Namespace object of the caller's own for the PROV namespace (another prefix,
+                    # the same URI): pvx:label is prov:label
+                    an = {"form": "qn", "prefix": "pvx", "ns": "http://www.w3.org/ns/prov#", "local": an["s"][5:]}
             else:
                 an = self.rand_name(t, forms=tuple(f for f in self.p["name_forms"] if f != "uri") or ("qn",),
                                     locals_=self.p["attr_locals"])
